@@ -16,6 +16,7 @@ EXPLANATION = (
     "through the stitcher, so a resumed run reuses the interrupted run's entries; (4) the merge that pairs each "
     "source entry with its basis entry aligns the two streams by Apath::cmp and emits Both only on Equal, which is "
     "the precondition of any reuse (a mis-paired unchanged file would be stored again)."
+    " Added in later rounds: every Ok return after a write has recorded the block as present (C14.1d); the reuse site's deciding tests are exactly {basis present, heuristic, presence} (C14.2d); the heuristic consults kind, mtime and size only (C14.2e); the basis/source merge table (C14.4)."
 )
 UNDECIDED = ["'each distinct content written at most once in any history' (needs the history; concurrent writers excluded)",
              "counts of block writes for particular trees"]
